@@ -16,6 +16,9 @@ use pvh::*;
 use std::cell::Cell;
 use std::panic::{catch_unwind, AssertUnwindSafe};
 
+#[path = "../wrapjson_res.rs"]
+mod wrapjson_res;
+
 // ------------------------------------------------------------------ canonical printing
 
 thread_local! { static BASE: Cell<(usize, usize)> = Cell::new((0, 0)); }
@@ -423,7 +426,9 @@ macro_rules! json_table {
 			match pe.security() { Ok(s) => format!("{}|{}", s.certificate_type(), a_str(b64(s.certificate_data()).as_bytes())), Err(_) => "null|null".to_string() });
 		// resources: top level entries (name after renaming the well-known type ids, directory or data)
 		jr!("resources", match path(j, &["resources"]) { Value::Array(a) => a_list(a.iter().map(|e| format!("{}|{}", isnull(path(e, &["name"])), if e.get("directory").is_some() { "dir" } else { "data" })).collect()), o => vj(o) },
-			a_opt(pe.resources().and_then(|r| r.root()), |root| a_list(root.entries().map(|e| format!("{}|{}", if e.name().is_ok() { "some" } else { "null" }, if e.is_dir() { "dir" } else { "data" })).collect())));
+			// (the serializer stops when the entry budget of the section is used up: the entries it did write are a prefix of the directory;
+			//  the exact cut is the business of the model of the member, Model/WrapJsonRes.v, compared through the JT row)
+			a_opt(pe.resources().and_then(|r| r.root()), |root| a_list(root.entries().take(match path(j, &["resources"]) { Value::Array(a) => a.len(), _ => 0 }).map(|e| format!("{}|{}", if e.name().is_ok() { "some" } else { "null" }, if e.is_dir() { "dir" } else { "data" })).collect())));
 		rows
 	}};
 }
@@ -765,6 +770,19 @@ fn gen_demo(rng: &mut Rng) -> String {
 			},
 		}
 	}
+	// third round: a generated resource tree written over the demo's own resource section (when it fits)
+	if rng.chance(1, 6) {
+		let (va, sz) = (r32(&b, dd + 16), r32(&b, dd + 20));
+		if va != 0 {
+			if let Some(o) = to_off(va) {
+				let (bytes, size) = wrapjson_res::gen_res_section(rng, va);
+				if bytes.len() <= sz as usize && o + bytes.len() <= b.len() {
+					pokes.push((o, bytes));
+					if size <= sz || rng.chance(1, 4) { pokes.push((dd + 20, size.to_le_bytes().to_vec())); }
+				}
+			}
+		}
+	}
 	let npokes = match rng.below(10) { 0 | 1 | 2 => 0, 3 | 4 | 5 | 6 => 1, 7 | 8 => 2, _ => rng.range(3, 6) };
 	for _ in 0..npokes {
 		let val = |rng: &mut Rng, old: u32| -> u32 {
@@ -810,8 +828,16 @@ fn gen_demo(rng: &mut Rng) -> String {
 	format!("wj src={} view={} place={} len=0 fill=0 hdr=- pokes={} q={}", src, view as u8, place, join(&pk, "/"), join(&qs, ","))
 }
 
+/// third round: a synthetic image whose data directory 2 names a generated resource section (harness/src/wrapjson_res.rs)
+fn gen_res(rng: &mut Rng) -> String {
+	let (view, place, img, edges, nsec) = wrapjson_res::gen_res_image(rng);
+	let names: [&[u8]; 2] = [b"x", b""];
+	let qs = gen_queries(rng, &edges, nsec, &names, 4);
+	format!("wj src=synth view={} place={} {} q={}", view as u8, place, img.encode(), join(&qs, ","))
+}
+
 fn gen(rng: &mut Rng, _i: u64) -> String {
-	if rng.chance(2, 5) { gen_demo(rng) } else { gen_synth(rng) }
+	if rng.chance(1, 4) { gen_res(rng) } else if rng.chance(2, 5) { gen_demo(rng) } else { gen_synth(rng) }
 }
 
 // ------------------------------------------------------------------ run
